@@ -42,6 +42,9 @@ type input struct {
 	// lower-cased "1" or "true")
 	ContSp string `json:"continueOnFailure_spelling,omitempty"`
 	Els    []elem `json:"elements"`
+	// CancelAt: the request's context is cancelled while element CancelAt-1 is being executed (0 = never); the client
+	// going away does not change what the bulk does or answers
+	CancelAt int `json:"cancel_context_during_element,omitempty"`
 }
 
 var actions = []string{v2.ActionCreateTransaction, v2.ActionAddMetadata, v2.ActionRevertTransaction, v2.ActionDeleteMetadata}
@@ -83,8 +86,14 @@ func ikN(k string) uint64 {
 	if k == "" {
 		return 0
 	}
-	n, _ := strconv.Atoi(k[1:])
-	return uint64(n)
+	if n, err := strconv.Atoi(k[1:]); err == nil && k[0] == 'k' {
+		return uint64(n)
+	}
+	h := uint64(1000) // any other spelling: a number of its own (blanks, letter case)
+	for i := 0; i < len(k); i++ {
+		h = h*131 + uint64(k[i])
+	}
+	return h
 }
 
 // body of element i; the element index is embedded so the scripted backend can recognise the call
@@ -244,10 +253,13 @@ func idxOf(c fakeapi.WriteCall) int {
 	return -1
 }
 
-func backendFor(in input) *fakeapi.Ledger {
+func backendFor(in input, cancel ...context.CancelFunc) *fakeapi.Ledger {
 	l := &fakeapi.Ledger{}
 	l.Decide = func(c fakeapi.WriteCall) (*ledger.Transaction, error) {
 		i := idxOf(c)
+		if in.CancelAt > 0 && i == in.CancelAt-1 && len(cancel) > 0 {
+			cancel[0]()
+		}
 		if i < 0 || i >= len(in.Els) {
 			return nil, errors.New("fail-unknown")
 		}
@@ -314,8 +326,10 @@ func runDirect(in input) (ob observation, panicked string) {
 	if err := json.Unmarshal([]byte(body(in)), &b); err != nil {
 		panic("harness: body does not decode: " + err.Error())
 	}
-	l := backendFor(in)
-	res, flag, err := v2.ProcessBulk(context.Background(), l, b, in.Cont)
+	ctx, cancel := context.WithCancel(context.Background())
+	defer cancel()
+	l := backendFor(in, cancel)
+	res, flag, err := v2.ProcessBulk(ctx, l, b, in.Cont)
 	ob.Calls = callsOf(l, in)
 	ob.Flag, ob.Err, ob.NilRes = flag, err != nil, res == nil
 	for _, r := range res {
@@ -332,7 +346,9 @@ func runDirect(in input) (ob observation, panicked string) {
 
 // through the real router and bulkHandler
 func runHTTP(in input) (ob observation, raw string) {
-	l := backendFor(in)
+	hctx, hcancel := context.WithCancel(context.Background())
+	defer hcancel()
+	l := backendFor(in, hcancel)
 	router := v2.NewRouter(&fakeapi.Backend{L: l}, &health.HealthController{}, metrics.NewNoOpRegistry(), auth.NewNoAuth())
 	url := "/ledger0/_bulk"
 	switch {
@@ -344,7 +360,7 @@ func runHTTP(in input) (ob observation, raw string) {
 	}
 	req := httptest.NewRequest(http.MethodPost, url, bytes.NewBufferString(body(in)))
 	rec := httptest.NewRecorder()
-	router.ServeHTTP(rec, req)
+	router.ServeHTTP(rec, req.WithContext(hctx))
 	ob.Status = rec.Code
 	ob.Calls = callsOf(l, in)
 	raw = rec.Body.String()
@@ -552,6 +568,9 @@ func genElem(g *vx.Rng) elem {
 	}
 	if g.Chance(1, 2) {
 		e.IK = fmt.Sprintf("k%d", 1+g.Intn(3))
+		if g.Chance(1, 4) { // keys are text: blanks and letter case belong to them
+			e.IK = []string{e.IK + " ", " " + e.IK, "K" + e.IK[1:], " ", "\t"}[g.Intn(5)]
+		}
 	}
 	e.Bare = e.Act == v2.ActionCreateTransaction && g.Chance(1, 4)
 	return e
@@ -620,6 +639,9 @@ func main() {
 			if in.ContSp == "=" {
 				in.ContSp = "%20" // a blank value
 			}
+		}
+		if g.Chance(1, 6) {
+			in.CancelAt = 1 + g.Intn(n)
 		}
 		if k%40 == 39 && !r.Thorough() || k%400 == 399 {
 			n = 60 + g.Intn(200) // a long bulk
